@@ -201,6 +201,13 @@ func TestWriterReset(t *testing.T) {
 				side2 = false // Reset to the client side needs room for a masked header (panics by contract otherwise)
 			}
 			rec2 = tx.NewRec()
+			if rapid.IntRange(0, 2).Draw(t, "same-dest") == 0 {
+				// the per-message loop: Reset onto the very same destination,
+				// which — if it had failed — has recovered
+				rec2 = rec1
+				rec1.FailAt, rec1.Failed = -1, false
+				hx.Class(fmt.Sprintf("reset/onto-same-destination/after-recorded-error=%v", errRec))
+			}
 			w.Reset(rec2, stateOf(side2), ws.OpCode(op2))
 			ex.Retarget(w, rec2)
 		case "putget":
@@ -389,7 +396,7 @@ func TestWriterReset(t *testing.T) {
 // TestKnownFindings holds the dedicated probes of the listed findings.
 func TestKnownFindings(t *testing.T) {
 	what := "wsutil.Writer.Reset (and PutWriter/GetWriter) after a failed destination write: every later Write/Flush still returned the old error"
-	probe := func(viaPool bool) (present bool, desc map[string]interface{}) {
+	probe := func(viaPool, sameDest bool) (present bool, desc map[string]interface{}) {
 		bad := tx.NewRec()
 		bad.FailAt = 0
 		var w *wsutil.Writer
@@ -404,6 +411,11 @@ func TestKnownFindings(t *testing.T) {
 			t.Fatalf("probe set-up: the failing destination did not make the writer fail (write err=%v, flush err=%v)", werr, ferr)
 		}
 		good := tx.NewRec()
+		if sameDest {
+			// the destination recovers and the writer is reset onto the same value
+			good = bad
+			bad.FailAt, bad.Failed, bad.Calls = -1, false, nil
+		}
 		if viaPool {
 			wsutil.PutWriter(w)
 			w = wsutil.GetWriter(good, ws.StateServerSide, ws.OpText, 128)
@@ -414,10 +426,11 @@ func TestKnownFindings(t *testing.T) {
 		err2 := w.Flush()
 		want := []byte{0x81, 0x02, 'h', 'i'}
 		present = err != nil || err2 != nil || n != 2 || !bytes.Equal(good.Bytes(), want)
-		return present, map[string]interface{}{"via_pool": viaPool, "write_n": n, "write_err": fmt.Sprint(err), "flush_err": fmt.Sprint(err2), "sent": fmt.Sprintf("%x", good.Bytes()), "want": fmt.Sprintf("%x", want)}
+		return present, map[string]interface{}{"via_pool": viaPool, "same_destination": sameDest, "write_n": n, "write_err": fmt.Sprint(err), "flush_err": fmt.Sprint(err2), "sent": fmt.Sprintf("%x", good.Bytes()), "want": fmt.Sprintf("%x", want)}
 	}
-	p1, d1 := probe(false)
-	p2, d2 := probe(true)
-	hx.EvalN(2)
-	hx.Probe(t, sigResetKeepsError, what, p1 || p2, []interface{}{d1, d2})
+	p1, d1 := probe(false, false)
+	p2, d2 := probe(true, false)
+	p3, d3 := probe(false, true)
+	hx.EvalN(3)
+	hx.Probe(t, sigResetKeepsError, what, p1 || p2 || p3, []interface{}{d1, d2, d3})
 }
